@@ -25,7 +25,7 @@ def side(h):
     SIDE.append(h)
 
 
-def explore(fn, hyps=(), max_paths=64, prune=True, catch=(Exception,)):
+def explore(fn, hyps=(), max_paths=64, prune=True, catch=(Exception,), hyps_fn=None):
     """Yield Path objects for every feasible path of fn()."""
     pending = [[]]
     out = []
@@ -44,7 +44,7 @@ def explore(fn, hyps=(), max_paths=64, prune=True, catch=(Exception,)):
             else:
                 can_t = can_f = True
                 if prune:
-                    ctx = hyps + pc + list(SIDE)
+                    ctx = hyps + pc + list(SIDE) + (list(hyps_fn()) if hyps_fn else [])
                     if solve.prove(ctx, tm.not_(t), use_cvc5="never", timeout_ms=3000).status == "proved":
                         can_t = False
                     elif solve.prove(ctx, t, use_cvc5="never", timeout_ms=3000).status == "proved":
